@@ -819,7 +819,22 @@ func (c *Client) UpgradeTo(target string, hook func()) error {
 // Candidate returns a client object bound to an existing session id, for driving an
 // upgrade candidate by hand.
 func (w *World) Candidate(sid string, rev int) *Client {
-	return &Client{W: w, Cfg: ClientCfg{Rev: rev, Transport: "polling"}, Sid: sid, postSem: make(chan struct{}, 1)}
+	c := &Client{W: w, Cfg: ClientCfg{Rev: rev, Transport: "polling"}, Sid: sid, postSem: make(chan struct{}, 1)}
+	w.mu.Lock()
+	w.cands = append(w.cands, c)
+	w.mu.Unlock()
+	return c
+}
+
+// StopCandidates drops every connection opened through Candidate().
+func (w *World) StopCandidates() {
+	w.mu.Lock()
+	cs := w.cands
+	w.cands = nil
+	w.mu.Unlock()
+	for _, c := range cs {
+		c.Stop()
+	}
 }
 
 // DialCandidateWS opens a WebSocket candidate for the client's session id.
